@@ -310,19 +310,20 @@ Limit   == IF mode = "single" THEN 1 ELSE MaxCalls
 
 Init == /\ kind \in Kinds
         /\ mode \in {"single", "hist"}
-        /\ rng = [seed |-> "s0", stream |-> <<>>]       \* the harness seeds before constructing
+        /\ rng = [seed |-> "s0", stream |-> <<>>, calls |-> 0]     \* the harness seeds before constructing
         /\ steps = <<>> /\ ncalls = 0 /\ inputsIntact = TRUE
 
 \* abstract value of a call: a function of (kind, class, seed, stream position) and nothing else
-RngKey(k, r) == IF Randomised(k) THEN r ELSE [seed |-> "det", stream |-> <<>>]
+RngKey(k, r) == IF Randomised(k) THEN r ELSE [seed |-> "det", stream |-> <<>>, calls |-> 0]
 \* the property itself only promises reproducibility right after a seed ("equal seeds give equal
-\* results") and independence of earlier calls for deterministic aggregators; at later stream
-\* positions the implementation layer's draw accounting is used (mismatch there is only DRIFT)
-MemoLevel(k, r) == IF ~Randomised(k) \/ r.stream = <<>> THEN "property" ELSE "impl"
+\* results": no call of this instance since the seed) and independence of earlier calls for
+\* deterministic aggregators; at later stream positions the implementation layer's draw accounting
+\* (Draws; "a rejected call draws nothing") is used, and a mismatch there is only DRIFT
+MemoLevel(k, r) == IF ~Randomised(k) \/ r.calls = 0 THEN "property" ELSE "impl"
 
 CallStep(k, r, c) == [op |-> "call", s |-> "-", c |-> c, rngBefore |-> RngKey(k, r),
                       expect |-> Contract(k, c), impl |-> ImplOutcome(k, c)]
-RngAfterCall(k, r, c) == [seed |-> r.seed, stream |-> r.stream \o Draws(k, c)]
+RngAfterCall(k, r, c) == [seed |-> r.seed, stream |-> r.stream \o Draws(k, c), calls |-> r.calls + 1]
 
 Call(c) == /\ ncalls < Limit
            /\ c \in Alphabet(kind, mode)
@@ -335,7 +336,7 @@ Seed(s) == /\ mode = "hist" /\ Randomised(kind) /\ ncalls < Limit
            /\ (IF steps = <<>> THEN TRUE ELSE steps[Len(steps)].op = "call")   \* no two seeds in a row
            /\ steps' = Append(steps, [op |-> "seed", s |-> s, c |-> NoClass,
                                       rngBefore |-> RngKey(kind, rng), expect |-> "-", impl |-> "-"])
-           /\ rng' = [seed |-> s, stream |-> <<>>]
+           /\ rng' = [seed |-> s, stream |-> <<>>, calls |-> 0]
            /\ UNCHANGED <<kind, mode, ncalls, inputsIntact>>
 
 CallAny == \E c \in Alphabet(kind, mode) : Call(c)
@@ -374,9 +375,10 @@ DeterministicIgnoresRng == ~Randomised(kind) => \A i \in DOMAIN steps : steps[i]
 \* a rejected call does not advance the stream; a seed resets it
 StreamAccounting == \A i \in DOMAIN steps :
     /\ (steps[i].op = "seed" /\ i < Len(steps) /\ Randomised(kind)) =>
-          steps[i + 1].rngBefore = [seed |-> steps[i].s, stream |-> <<>>]
+          steps[i + 1].rngBefore = [seed |-> steps[i].s, stream |-> <<>>, calls |-> 0]
     /\ (steps[i].op = "call" /\ i < Len(steps) /\ steps[i].impl # "vector") =>
-          steps[i + 1].rngBefore = steps[i].rngBefore
+          /\ steps[i + 1].rngBefore.stream = steps[i].rngBefore.stream
+          /\ steps[i + 1].rngBefore.seed = steps[i].rngBefore.seed
 
 \* homogeneity is only ever demanded where the model can decide the side conditions
 HomWellDefined == \A i \in DOMAIN steps :
